@@ -44,7 +44,7 @@ def build_all(tier):
                     for ex in exports[:2]:
                         ident = ("S", name, (tuple(ident_of_arg(a) for a in args), tuple(sorted(kw.items()))), tuple(sorted(o.items())), tuple(sorted(ex)))
                         out.append((ident, SchedulerExpression(name, args, dict(kw), task_options=dict(o), export_options=set(ex))))
-    for fn in ("getitem", "add", "getattr"):
+    for fn in ("getitem", "add", "radd", "mul", "rmul", "sub", "rsub", "getattr", "call"):
         for args in arg_tuples[:20]:
             for kw in kw_sets[:2]:
                 ident = ("O", fn, (tuple(ident_of_arg(a) for a in args), tuple(sorted(kw.items()))), (), ())
@@ -107,7 +107,7 @@ def run(ctx):
         "distinct_nontrivial": len(by_ident),
         "distinct_hashes": len(by_hash),
         "exhaustive": True,
-        "rule": "all Task/Scheduler/Simple/Value expressions over 2 names per kind, argument tuples of length <=2 over concrete values and nested "
+        "rule": "all Task/Scheduler/Simple/Value expressions over 2 task / scheduler-task names and 9 operator names (direct and reflected forms), argument tuples of length <=2 over concrete values and nested "
         "expressions (incl. one differing only in its options), keyword sets, 5 call-time option sets, 3 exported-option sets; oracle over all "
         "pairs: hash equal <=> (kind, name, args, options, exported) equal; pickle round trip keeps hash/args/options and resets call_hash/_upstreams",
         "samples": [repr(items[i][1]) for i in (0, len(items) // 2, len(items) - 1)],
